@@ -42,6 +42,9 @@ def cell_of(index, point):
     return c_x, c_y
 
 
+NEAR_TIE = 1 + 2.0 ** -46
+
+
 def check_query(index, paths, reverse, removed, query, end_cells):
     """One nearest() call in one state.  Returns (clause, msg) or None."""
     n_paths = len(paths)
@@ -72,11 +75,15 @@ def check_query(index, paths, reverse, removed, query, end_cells):
         best_all = min(best_all, d_2)
         if abs(cell[0] - q_cell[0]) <= 1 and abs(cell[1] - q_cell[1]) <= 1:
             best_near = min(best_near, d_2)
+    # "at least as close" is judged on the squared distances between the given coordinates with a
+    # relative allowance of 2^-46: whichever way an implementation measures (dx*dx + dy*dy,
+    # math.dist, offsets from the grid origin), two ends whose distances differ by a few units in
+    # the last place are a tie that floating point cannot decide, and either answer is accepted
     if best_near < math.inf:
-        if dist > best_near:
+        if dist > best_near * NEAR_TIE:
             return ("beaten", f"nearest({query}) = {got} at squared distance {dist}, but a live "
                     f"end in the query's cell neighbourhood is at {best_near}")
-    elif dist != best_all:
+    elif dist > best_all * NEAR_TIE:
         return ("fallback", f"nearest({query}) = {got} at squared distance {dist}; the "
                 f"neighbourhood is empty and the globally closest live end is at {best_all}")
     # independent of cell assignment: true nearest within one cell width of an in-grid query
@@ -84,7 +91,7 @@ def check_query(index, paths, reverse, removed, query, end_cells):
     side = index.bins_per_side
     in_grid = index.xmin <= query[0] <= index.xmin + side * index.bin_size_x and \
         index.ymin <= query[1] <= index.ymin + side * index.bin_size_y
-    if in_grid and best_all <= width * width and dist != best_all:
+    if in_grid and best_all <= width * width and dist > best_all * NEAR_TIE:
         return ("true_nearest", f"nearest({query}) = {got} at squared distance {dist}; the true "
                 f"nearest live end is at {best_all}, within one cell width {width}")
     return None
@@ -416,6 +423,14 @@ def run(ctx):
     for shift in ((1, float(1 << 50), 0.0), (1, 0.0, -float(1 << 50))):
         jobs += [(chunk, [1, 2, 3, 4], queries, False, shift) for chunk in core.split(ones, 8)]
     jobs += [(chunk, [2, 4], FINE_QUERIES, False) for chunk in core.split(fine_sets(), 48)]
+    # decimal coordinates (tenths: no short binary expansion, so every subtraction of the grid
+    # origin rounds) with queries half-way between the two ends of a path: near-ties whose order
+    # only the distance between the *given* coordinates gets right
+    marks = (1, 7, 12, 23, 29)
+    tenths = [(((a / 10, c / 10), (b / 10, d / 10)),) for a in marks for b in marks
+              for c in (0, 7, 11) for d in (0, 7, 11)]
+    tenth_q = [(m / 10, n / 10) for m in range(0, 31) for n in (0, 5, 7, 11)]
+    jobs += [(chunk, [1, 2], tenth_q, False) for chunk in core.split(tenths, 32)]
     twos = [(p, q) for p in all_paths for q in all_paths]
     few_q = [(x, y) for x in (-1, 0, 0.5, 1, 1.5, 2, 3) for y in (-1, 0, 0.5, 1, 1.5, 2, 3)]
     jobs += [(chunk, [1, 2, 3, 4], few_q if not ctx.thorough else queries, False)
